@@ -7,7 +7,7 @@ ID = 'C16'
 LEVEL = 'exploration'
 RULE = ('two families. (value) value recipe (strings with escapes, bytes, numbers, constants, commented values, calls, '
         'stdlib instances incl. timedelta operators) x (width, indent) x every style of the installed pygments plus the two '
-        'bundled styles x colour mode in {true colour, 256, 8}, written by cpprint(stream=StringIO, end=...). (doc) document '
+        'bundled styles (given as the class, by the bundled name, or as the default style set through set_default_style / set_default_config) x colour mode in {true colour, 256, 8}, written by cpprint(stream=StringIO, end=...). (doc) document '
         'term with annotate() carrying syntax tokens nested up to depth 3 and opaque non-token annotations inside/outside '
         'them (opaque objects, plain ints equal to Token members, unhashable values, None), text fragments ending in tabs / form feeds, laid out and written by colored_render_to_stream. Exhaustive: a fixed corpus x every style x every mode, and '
         'every Token member alone; random: Hypothesis values/terms x styles. Oracle: an independent SGR decoder - text with '
@@ -75,7 +75,8 @@ def enumerate_cases(tier):
             for vi, v in enumerate(CORPUS):
                 if tier == 'quick' and (si + vi) % 2 and mode != 'true':
                     continue
-                yield {'kind': 'value', 'v': v, 'width': 30 if vi % 2 else 79, 'indent': 4, 'style': sname, 'mode': mode, 'end': '\n'}
+                yield {'kind': 'value', 'v': v, 'width': 30 if vi % 2 else 79, 'indent': 4, 'style': sname, 'mode': mode, 'end': '\n',
+                       'how': ('arg', 'default', 'config', 'name')[(si + vi) % 4]}
             for tn in all_token_names():
                 if tier == 'quick' and mode != 'true':
                     continue
@@ -117,7 +118,7 @@ def strategy(tier):
         'kind': st.just('value'), 'v': gens.any_value(S, comments=True),
         'width': st.sampled_from([10, 30, 79]), 'indent': st.sampled_from([2, 4]),
         'style': st.sampled_from(names), 'mode': st.sampled_from(MODES), 'end': st.sampled_from(['\n', '', 'END']),
-        'sort': st.booleans(),
+        'sort': st.booleans(), 'how': st.sampled_from(['arg', 'arg', 'name', 'default', 'config']),
     })
     doc = st.fixed_dictionaries({
         'kind': st.just('doc'),
@@ -185,11 +186,31 @@ def oracle(case):
                 warnings.simplefilter('ignore')
                 sdocs = list(python_to_sdocs(v, **cfg))
                 s = io.StringIO()
+                # how the style reaches the renderer: as the class, by its bundled name, or as the default style
+                # (set_default_style / set_default_config(style=...)) with no style argument
+                how = case.get('how', 'arg')
+                if how == 'name' and case['style'] not in ('@dark', '@light'):
+                    how = 'arg'
+                import prettyprinter.color as _color
+                saved_default = _color.default_style
+                kw = {}
                 try:
+                    if how == 'arg':
+                        kw['style'] = style
+                    elif how == 'name':
+                        kw['style'] = case['style'][1:]
+                    elif how == 'default':
+                        from prettyprinter import set_default_style
+                        set_default_style(style)
+                    else:
+                        from prettyprinter import set_default_config
+                        set_default_config(style=style)
                     cpprint(v, stream=s, indent=case['indent'], width=case['width'], ribbon_width=case['width'],
-                            style=style, end=case['end'], sort_dict_keys=bool(case.get('sort')))
+                            end=case['end'], sort_dict_keys=bool(case.get('sort')), **kw)
                 except Exception as e:
-                    return core.viol('render-raised', 'style %s mode %s: %r' % (case['style'], mode, e), [case['style']])
+                    return core.viol('render-raised', 'style %s (%s) mode %s: %r' % (case['style'], how, mode, e), [case['style']])
+                finally:
+                    _color.default_style = saved_default
             written = s.getvalue()
             end = case['end']
         else:
